@@ -150,6 +150,11 @@ type Script struct {
 	Ret    Ty         `json:"ret"`
 	Body   []Stmt     `json:"body"`
 	Calls  [][]uint64 `json:"calls"` // per call, per parameter: canonical bits (see Expr.V)
+	// Fall: the body ends in an if / else-if / else chain in which one branch does not
+	// return, so a path falls off the end of a value-returning function. The analyzer has to
+	// reject the program ("must return a value on all paths"); if it accepts it, the module
+	// still has to validate. Such programs are never executed.
+	Fall bool `json:"fall,omitempty"`
 }
 
 // ---- literal helpers
